@@ -197,3 +197,25 @@ pub fn now() -> std::time::Instant {
 pub fn set_mock_clock(offset: Option<std::time::Duration>) {
     MOCK_CLOCK.with(|c| c.set(offset));
 }
+
+/// One block of the job graph with the replicas the scheduler assigned to it.
+#[derive(Debug, Clone)]
+pub struct BlockDump {
+    pub id: BlockId,
+    pub replication: crate::block::Replication,
+    pub only_one: bool,
+    /// ((block, host, replica), global id)
+    pub replicas: Vec<((u64, u64, u64), CoordUInt)>,
+}
+
+/// What `StreamContext::verif_execution_graph` returns.
+#[derive(Debug, Clone)]
+pub struct GraphDump {
+    pub blocks: Vec<BlockDump>,
+    /// job-graph edges (from block, to block, fragile)
+    pub edges: Vec<(BlockId, BlockId, bool)>,
+    /// execution-graph links (producer, consumer, fragile)
+    pub links: Vec<((u64, u64, u64), (u64, u64, u64), bool)>,
+    /// demultiplexer sockets ((block, host, previous block), address, port)
+    pub ports: Vec<((u64, u64, u64), String, u16)>,
+}
